@@ -86,6 +86,8 @@ MbValid(c) ==
   /\ RangeOf(c.drop) \subseteq 0..(nd - 1)
   /\ \A k \in DOMAIN c.newax : c.newax[k] <= Len(KeptAxes(c)) + k - 1
   /\ (c.chk = "none" => c.nsz = 1)
+  \* "first" (the function keeps one cell per axis) needs blocks that have a cell
+  /\ (c.chk = "first" => \A d \in DOMAIN c.arrs[c.dom].chunks : \A k \in DOMAIN c.arrs[c.dom].chunks[d] : c.arrs[c.dom].chunks[d][k] > 0)
   /\ \A i \in DOMAIN c.arrs : \A d \in DOMAIN c.arrs[i].shape : c.arrs[i].shape[d] = SumSeq(c.arrs[i].chunks[d])
 
 MbOutNB(c) == LET ax == OutAxes(c) IN
@@ -131,13 +133,13 @@ MbCall(c, bc) ==
    ret  |-> MbRet(c, bc)]
 
 MbExpect(c) ==
-  IF ~MbValid(c) THEN [ok |-> FALSE, calls |-> <<>>, onb |-> <<>>]
+  IF ~MbValid(c) THEN [ok |-> FALSE, soft |-> FALSE, calls |-> <<>>, onb |-> <<>>]
   ELSE LET cs == Coords(MbOutNB(c)) IN
-       [ok |-> TRUE, onb |-> MbOutNB(c), calls |-> [k \in DOMAIN cs |-> MbCall(c, cs[k])]]
+       [ok |-> TRUE, soft |-> FALSE, onb |-> MbOutNB(c), calls |-> [k \in DOMAIN cs |-> MbCall(c, cs[k])]]
 
 \* ================================================================ blockwise (index strings)
 (* case = [fam |-> "bw", arrs, inds (one index string per array), oi, conc, nax (sequence of
-           [ix, sz]), adj (indices whose chunks the function doubles)]
+           [ix, sz]), adj (indices whose chunk sizes the function changes), adjk (how: see AdjSize)]
    Alignment is Blockwise!ArgBlocks on the layer below.                                    *)
 BwLayer(c) ==
   [out |-> "o", oi |-> c.oi, conc |-> c.conc,
@@ -200,17 +202,22 @@ BwBlockSize(c, bc, p) ==
   IN IF nw # {} THEN c.nax[CHOOSE q \in nw : TRUE].sz
      ELSE BwDefiner(c, ix)[bc[p] + 1]
 
+\* adjust_chunks: "dbl" a callable n -> 2n, "int3" the integer 3 (every block gets that size),
+\* "inc" an explicit tuple (each block one larger); the recorder returns blocks of exactly these sizes
+AdjSize(kind, b) == CASE kind = "dbl" -> 2 * b [] kind = "int3" -> 3 [] kind = "inc" -> b + 1
+
 BwCall(c, bc) ==
   LET views == [i \in DOMAIN c.arrs |-> BwView(c, i, bc)]
-      shp   == [p \in DOMAIN c.oi |-> BwBlockSize(c, bc, p) * (IF c.oi[p] \in RangeOf(c.adj) THEN 2 ELSE 1)]
+      shp   == [p \in DOMAIN c.oi |-> IF c.oi[p] \in RangeOf(c.adj) THEN AdjSize(c.adjk, BwBlockSize(c, bc, p))
+                                       ELSE BwBlockSize(c, bc, p)]
   IN [bid |-> bc, args |-> views,
       ret |-> [shape |-> shp, cells |-> [p \in 1..Size(shp) |-> BwTag(views)]]]
 
 BwExpect(c) ==
-  IF ~BwValid(c) THEN [ok |-> FALSE, calls |-> <<>>, onb |-> <<>>]
+  IF ~BwValid(c) THEN [ok |-> FALSE, soft |-> FALSE, calls |-> <<>>, onb |-> <<>>]
   ELSE LET onb == BW!OutNB(BwLayer(c))
            cs  == Coords(onb) IN
-       [ok |-> TRUE, onb |-> onb, calls |-> [k \in DOMAIN cs |-> BwCall(c, cs[k])]]
+       [ok |-> TRUE, soft |-> FALSE, onb |-> onb, calls |-> [k \in DOMAIN cs |-> BwCall(c, cs[k])]]
 
 \* ================================================================ apply_gufunc = numpy.vectorize
 (* case = [fam |-> "gu", sig, arrs, K, vec, rechunk].  The signature menu and the core functions
@@ -270,9 +277,11 @@ GuOuts(c) ==
        [] c.sig = "s6" -> << mk(lsh \o <<n1>>, LAMBDA ix : 2 * X(1, lp(ix), <<ix[Len(ix)]>>) + ix[Len(ix)]),
                              mk(lsh, LAMBDA ix : SumTo(n1, LAMBDA k : X(1, ix, <<k>>))) >>
 
+\* ok: inside the documented domain.  soft: only the documented chunking precondition is violated - dask
+\* may refuse the call, but if it answers, the answer must still be numpy.vectorize's.
 GuExpect(c) ==
-  IF ~GuShapesOK(c) \/ ~GuChunksOK(c) THEN [ok |-> FALSE, outs |-> <<>>]
-  ELSE [ok |-> TRUE, outs |-> GuOuts(c)]
+  IF ~GuShapesOK(c) THEN [ok |-> FALSE, soft |-> FALSE, outs |-> <<>>]
+  ELSE [ok |-> GuChunksOK(c), soft |-> ~GuChunksOK(c), outs |-> GuOuts(c)]
 
 Expect(c) == CASE c.fam = "mb" -> MbExpect(c)
                [] c.fam = "bw" -> BwExpect(c)
